@@ -24,6 +24,18 @@ fn main() {
     let replays = PathBuf::from(arg(&args, "--replays").unwrap_or_else(|| "/verif/replays".into()));
     std::fs::create_dir_all(&out).expect("create out dir");
     vmon::trap::install();
+    // An application may register known values / functions of its own under any names, also names that collide
+    // with well-known ones (the global registries are naming aids for formatting). Every worker does so before
+    // anything else: nothing the library computes may depend on a registry lookup by NAME.
+    {
+        use bc_envelope::prelude::*;
+        let mut g = bc_envelope::KNOWN_VALUES.get();
+        if let Some(store) = g.as_mut() {
+            for (i, name) in ["salt", "isA", "signed", "hasRecipient", "sskrShare", "attachment", "vendor", "conformsTo", "note", "date", "body", "result", "error", "content", "OK", "Unknown", "id"].iter().enumerate() {
+                store.insert(KnownValue::new_with_name(100_000u64 + i as u64, name.to_string()));
+            }
+        }
+    }
     let mut ctx = Ctx::new(&prop, tier, seed, shard, nshards, out, replays);
     ctx.only_case = arg(&args, "--case").and_then(|s| s.parse().ok());
     if !vmon::props::run(&prop, &mut ctx) {
